@@ -193,9 +193,9 @@ PROPS["C14"] = {
 
 PROPS["C15"] = {
     "level": "other",
-    "technique": "Verus contracts on the extracted partition loops (Ingester::split_batch_by_key and ShardSplitter::split_batch: every row index on exactly one side, rows below the split point on the lower side, rows at or above it on the upper side, order kept), on write_with_split_awareness (effect order; lower side to new_shards[0], upper side to new_shards[1], each non-empty side to exactly one new shard) and on the keep-mask loop of dedup_batches (exactly the rows equal in every column to an earlier row are masked)",
+    "technique": "Verus contract on the whole extracted dedup_batches (every batch that has a readable timestamp and a metric column -- whatever the metric column's arrow type -- is run through the keep-mask with the cumulative seen-set of all earlier such batches; a batch is emitted unchanged only if it holds no duplicate, otherwise exactly its non-duplicate rows, omitted only if all its rows are duplicates; order kept); Verus contracts on the extracted partition loops (Ingester::split_batch_by_key and ShardSplitter::split_batch: every row index on exactly one side, rows below the split point on the lower side, rows at or above it on the upper side, order kept), on write_with_split_awareness (effect order; lower side to new_shards[0], upper side to new_shards[1], each non-empty side to exactly one new shard) and on the keep-mask loop of dedup_batches (exactly the rows equal in every column to an earlier row are masked)",
     "verus": ["c15_split.rs.in"],
-    "explanation": "Row routing and row-level de-duplication are proved for all batches and split points. Not provable by a contract on the existing structure and recorded as a known finding: de-duplication is applied to the result of the SQL, i.e. after aggregation, so aggregates over double-written rows are inflated while a split is active; batches whose metric_name column is dictionary encoded pass through un-deduplicated.",
+    "explanation": "Row routing and row-level de-duplication are proved for all batches and split points. Not provable by a contract on the existing structure and recorded as a known finding: de-duplication is applied to the result of the SQL, i.e. after aggregation, so aggregates over double-written rows are inflated while a split is active; (the pass-through of batches whose metric_name column is Utf8View / dictionary encoded was defect F23, repaired).",
     "assumptions": [
         "arrow accessors: Int64Array::value(i), RecordBatch::num_rows, take_record_batch selects exactly the given row indices, filter_record_batch keeps exactly the rows whose mask is true",
         "arrow row format (RowConverter) is injective: two row keys are equal iff the rows agree in every column",
